@@ -126,4 +126,149 @@ def runApplied (s : St) : List Ev → St
   | .newEpoch e :: r => runApplied { s with counter := e, timerResets := s.timerResets + 1 } r
   | .setAlphabet b :: r => runApplied { s with alphabet := b } r
 
+/-! ### histories of events against ONE processor and ONE validator instance
+
+The processor and its `CompositeValidator` live as long as the inner ring process: candidates
+of the same storage node (same public key) arrive again and again (every epoch) with changing
+content, between changes of the world the validators look at (NNS records of the verified-nodes
+domains, what the node serves at its endpoints, the external validator's policy) and epoch
+events.  State the processor keeps between events: the epoch counter / alphabet flag (global
+state), and the network map snapshot `curMap` swapped by every processed new-epoch
+notification (compared with the fresh map to decide whether container placements are
+updated).  Nothing else: in particular NO memory of earlier candidates. -/
+
+/-- a candidate as announced through the contract's `Node2` structure (what the validators READ
+    from it; the answers of the outside world are not part of it) -/
+structure Cand where
+  /-- which storage node key (small index) -/
+  key : Nat
+  state : NodeState
+  /-- per announced endpoint: well-formed multiaddress -/
+  addrsOk : List Bool
+  /-- ordinary attribute keys (a contract map: no repetitions) -/
+  attrKeys : List String
+  /-- the value (index) the ordinary attributes carry -/
+  attrVal : Nat
+  /-- verified-nodes domain: 0 = none -/
+  domain : Nat
+  hasLocode : Bool
+  locodeKnown : Bool
+  locodeFields : List Bool
+  deriving DecidableEq, Repr
+
+def sameKeys (a b : List String) : Bool :=
+  a.length == b.length && a.all b.contains && b.all a.contains
+
+/-- the availability probe compares what the node serves with what it announces, apart from
+    the state (`compareNodeInfos` sets both ONLINE) -/
+def Cand.sameContent (a b : Cand) : Bool :=
+  a.key == b.key && a.addrsOk == b.addrsOk && sameKeys a.attrKeys b.attrKeys &&
+  (a.attrKeys.isEmpty || a.attrVal == b.attrVal) && a.domain == b.domain &&
+  a.hasLocode == b.hasLocode &&
+  (!a.hasLocode || (a.locodeKnown == b.locodeKnown && a.locodeFields == b.locodeFields))
+
+/-- the world outside the processor that validators consult at the moment of the check -/
+structure World where
+  /-- (domain, key) pairs with an address record in the NNS -/
+  nns : List (Nat × Nat) := []
+  /-- the NNS answers with an error other than "no record" -/
+  nnsDown : Bool := false
+  /-- what the storage node with the key serves at its endpoints now (no entry: not answering) -/
+  live : List (Nat × Cand) := []
+  /-- attribute values the external validator rejects now -/
+  extDeny : List Nat := []
+  deriving Repr
+
+def World.served (w : World) (k : Nat) : Option Cand := (w.live.find? (·.1 == k)).map (·.2)
+
+/-- what the validators see of a candidate in the world as it is NOW -/
+def view (w : World) (c : Cand) : Node :=
+  { state := c.state, addrsOk := c.addrsOk, attrKeys := c.attrKeys,
+    reachable := c.addrsOk.isEmpty || (match w.served c.key with
+      | some d => c.sameContent d
+      | none => false),
+    hasDomain := c.domain != 0, keyPresent := true,
+    nnsAnswer := if w.nnsDown then 2 else if w.nns.contains (c.domain, c.key) then 0 else 1,
+    hasLocode := c.hasLocode, locodeKnown := c.locodeKnown, locodeFields := c.locodeFields,
+    externalOk := c.attrKeys.isEmpty || !w.extDeny.contains c.attrVal }
+
+/-- `Node2Info` converts only ONLINE and MAINTENANCE -/
+def Cand.convertible (c : Cand) : Bool := c.state == .online || c.state == .maintenance
+
+structure HSt where
+  ep : St := ⟨0, false, 0⟩
+  /-- the validators the composite validator was built with (fixed for the process) -/
+  vs : List V := []
+  w : World := {}
+  /-- the contract's current network map (keys, in order) and whether reading it fails -/
+  chain : List Nat := []
+  chainDown : Bool := false
+  /-- the processor's snapshot of the network map -/
+  curMap : List Nat := []
+  deriving Repr
+
+inductive HEv
+  | addNode (halts : Bool) (c : Cand)       -- AddNode notary request
+  | updPeer                                  -- UpdatePeer notary request
+  | tick
+  | newEpoch (e : Nat)
+  | setAlphabet (b : Bool)
+  | setNns (recs : List (Nat × Nat)) (down : Bool)
+  | serve (k : Nat) (c : Option Cand)
+  | setExt (deny : List Nat)
+  | setChain (keys : List Nat) (down : Bool)
+  deriving Repr
+
+inductive HOut
+  | admission (o : Outcome) (called : Nat)
+  | peer (o : Outcome)
+  | requests (l : List Nat)
+  /-- new epoch processed: container placements updated, alphabet sync + notary deposit handlers called -/
+  | epoch (placement handlers : Bool)
+  | env
+  deriving DecidableEq, Repr
+
+/-- requests made by the processor (admission, peer update, epoch tick): they read the state -/
+def HEv.isRequest : HEv → Bool
+  | .addNode _ _ | .updPeer | .tick => true
+  | _ => false
+
+def hstep (s : HSt) : HEv → HSt × HOut
+  | .addNode halts c =>
+    let n := view s.w c
+    (s, .admission (processAddNode s.ep.alphabet halts c.convertible s.vs n) (calledCount n s.vs))
+  | .updPeer => (s, .peer (processUpdatePeer s.ep.alphabet))
+  | .tick => (s, .requests (step s.ep .tick).2)
+  | .newEpoch e =>
+    let ep' := (step s.ep (.newEpoch e)).1
+    if s.chainDown then ({ s with ep := ep' }, .epoch false false)
+    else ({ s with ep := ep', curMap := s.chain }, .epoch (s.curMap != s.chain && s.ep.alphabet) true)
+  | .setAlphabet b => ({ s with ep := (step s.ep (.setAlphabet b)).1 }, .env)
+  | .setNns recs down => ({ s with w := { s.w with nns := recs, nnsDown := down } }, .env)
+  | .serve k c =>
+    let rest := s.w.live.filter (·.1 != k)
+    ({ s with w := { s.w with live := match c with
+      | some d => (k, d) :: rest
+      | none => rest } }, .env)
+  | .setExt deny => ({ s with w := { s.w with extDeny := deny } }, .env)
+  | .setChain keys down => ({ s with chain := keys, chainDown := down }, .env)
+
+def hrun (s : HSt) : List HEv → HSt × List HOut
+  | [] => (s, [])
+  | e :: r =>
+    let (s1, o1) := hstep s e
+    let (s2, o2) := hrun s1 r
+    (s2, o1 :: o2)
+
+/-- the epoch part of a history event -/
+def HEv.toEv : HEv → Option Ev
+  | .tick => some .tick
+  | .newEpoch e => some (.newEpoch e)
+  | .setAlphabet b => some (.setAlphabet b)
+  | _ => none
+
+def HOut.reqs : HOut → List Nat
+  | .requests l => l
+  | _ => []
+
 end NeoFS.IRNetmap
